@@ -21,15 +21,27 @@
      be at, with what it needs of the tree), a stability ("rely") relation — directories stay, bucket files stay files,
      published content stays, nobody touches another thread's temp file (fresh O_EXCL names are pairwise distinct) — and
      the ghost order of appends.  Hypothesis: the writers' data do not collide under their content paths.
+   * C07_readers_among_writers — UNBOUNDED, readers included: any number of readers ([read key]: one step on the bucket,
+     one on the content file) run with any number of such writers / removers, any interleaving of all steps (two pools
+     on one tree, theories/Conc.v [ostep]).  The writers run exactly as without the readers, and the result of every
+     reader is the result of the same read executed ATOMICALLY in the reachable state of the writers at which its index
+     step happened: no reader observes partial content or a partial index record.  C07_atomic_read_value: such an
+     atomic read answers "not found" or the complete, verified bytes of the initial entry or of one of the writers of
+     that key whose record is appended.  Invariants behind it: content files are monotone (published bytes are only
+     ever replaced by identical bytes), every content file comes from the initial cache or is the complete data of a
+     writer, every visible index entry is backed by its content.  Hypotheses: as above plus the writers' data do not
+     collide with content already stored, and the initial entries are backed (true of the empty cache and of every
+     state such writers reach: C07_backed_reachable).
    Serialisability of whole operations mixing readers / removers / listers, bounded (the bound is part of each statement): for the nine concrete pairs below — drawn from the
    property's operation set on cold and warm caches, with a toy hash, concrete keys and contents (two writers of one key /
    of one content are taken after their private temp-file phase, i.e. as two commits) — EVERY interleaving of
    the two operations' steps ends with results and a tree equal to those of one of the two serial orders
    ([forallb serial_ok] over the explorer's complete output, evaluated by the kernel's VM, lifted by
-   [explore_complete]).  Partial: unbounded serialisability (all data / keys / cache states, three operations) is not
-   proved — the writers' private temp-file phase needs a rely/guarantee argument that is left open; triples and the
-   real kernel's atomicity are exercised by the forced-schedule suite on the real binaries. *)
-From CC Require Import Bytes Codec Utf8 Lines Json Sri Record Fs Prog Api Sess Crash Conc BytesP CodecP FsP ProgP SriP RecordP IndexP ReadP WriteP CommitP RemoveP CrashP CrashIdxP FormatP ConcP ConcIdxP ConcWriteP.
+   [explore_complete]).  Partial: unbounded serialisability is proved for keyed one-shot writers, tombstone
+   removers and readers by key (above); for streamed writers, removals by address, listers and existence tests it is
+   bounded (the pairs below); triples and the real kernel's atomicity are exercised by the forced-schedule suite on the
+   real binaries. *)
+From CC Require Import Bytes Codec Utf8 Lines Json Sri Record Fs Prog Api Sess Crash Conc BytesP CodecP FsP ProgP SriP RecordP IndexP ReadP WriteP CommitP RemoveP CrashP CrashIdxP FormatP ConfineP RecCodecP ConcP ConcIdxP ConcWriteP ConcReadP.
 From Coq Require Import Permutation.
 Local Open Scope N_scope.
 
@@ -87,6 +99,40 @@ Theorem C07_observations_monotone hs f0 s1 s2 :
     (forall k, run (find hash k) (snd s1) = (Ok (fold_left spec_step (hops_of hs done) (abs_idx hash f0) k), snd s1)) /\
     (forall k, run (find hash k) (snd s2) = (Ok (fold_left spec_step (hops_of hs (done ++ ext)) (abs_idx hash f0) k), snd s2)).
 Proof. exact (observations_monotone hash hs f0 s1 s2). Qed.
+
+(* readers among writers: each reader answers as the same read run atomically at a reachable state of the writers *)
+Theorem C07_readers_among_writers (HL : HashLen hash) ws f0 ks pl' rl' f' :
+  CacheInv f0 -> Backed hash f0 -> coll_free hash ws -> coll0 hash ws f0 ->
+  Forall (fun x => wf_rec hash (hop_rec (x_hop hash x))) ws ->
+  oreach (map (wprog hash) ws, map (read hash) ks, f0) (pl', rl', f') ->
+  preach (map (wprog hash) ws, f0) (pl', f') /\
+  forall j a, (j < List.length ks)%nat -> nth j rl' (Ret Stuck) = Ret a ->
+    exists s1, preach (map (wprog hash) ws, f0) s1 /\ preach s1 (pl', f') /\
+               a = fst (run (read hash (nth j ks [])) (snd s1)).
+Proof. intros H1 H2 H3 H4 H5. exact (readers_among_writers hash HL ws f0 H1 H2 H3 H4 H5 ks pl' rl' f'). Qed.
+
+Theorem C07_atomic_read_value (HL : HashLen hash) ws f0 k s :
+  CacheInv f0 -> Backed hash f0 -> coll_free hash ws -> coll0 hash ws f0 ->
+  Forall (fun x => wf_rec hash (hop_rec (x_hop hash x))) ws ->
+  preach (map (wprog hash) ws, f0) s ->
+  fst (run (read hash k) (snd s)) = Err ENotFound /\ abs_idx hash (snd s) k = None \/
+  exists m d, abs_idx hash (snd s) k = Some m /\ fst (run (read hash k) (snd s)) = Ok d /\ check_res hash (m_sri m) d = Ok tt /\
+    (abs_idx hash f0 k = Some m \/
+     exists x, In x ws /\ ws_rm x = false /\ bytes_eqb k (ws_key x) = true /\ m_sri m = x_sri hash x /\ d = ws_data x).
+Proof. intros H1 H2 H3 H4 H5. exact (atomic_read_value hash HL ws f0 H1 H2 H3 H4 H5 k s). Qed.
+
+Theorem C07_backed_reachable (HL : HashLen hash) ws f0 s :
+  CacheInv f0 -> Backed hash f0 -> coll_free hash ws -> coll0 hash ws f0 ->
+  Forall (fun x => wf_rec hash (hop_rec (x_hop hash x))) ws ->
+  preach (map (wprog hash) ws, f0) s -> CacheInv (snd s) /\ Backed hash (snd s).
+Proof. intros H1 H2 H3 H4 H5. exact (reach_cache_ok hash HL ws f0 H1 H2 H3 H4 H5 s). Qed.
+
+Theorem C07_backed_empty : Backed hash [].
+Proof. exact (backed_empty hash). Qed.
+
+(* the reader programs of that theorem are the library's read programs and never change the tree *)
+Theorem C07_read_is_readonly key : all_steps readonly (read hash key).
+Proof. exact (read_ro hash key). Qed.
 
 (* the thread programs of that theorem are the library's write_sync programs (async write runs identically: C12) *)
 Theorem C07_wprog_is_write x :
@@ -215,6 +261,25 @@ Example C07_example :
   | [] => false end = true.
 Proof. vm_compute. reflexivity. Qed.
 
+(* non-vacuity of the readers-among-writers theorems: two writers of one key with different contents, a writer of another
+   key with the same content as the first, and a remover, on the empty cache, meet every hypothesis *)
+Definition ex_ws : list wspec :=
+  [mkWs false Sha256 K DA 1; mkWs false Sha1 K DB 2; mkWs false Sha256 K2 DA 3; mkWs true Sha256 K [] 4].
+Example C07_readers_hypotheses :
+  HashLen toy_hash /\ CacheInv [] /\ Backed toy_hash [] /\ coll_free toy_hash ex_ws /\ coll0 toy_hash ex_ws [] /\
+  Forall (fun x => wf_rec toy_hash (hop_rec (x_hop toy_hash x))) ex_ws.
+Proof.
+  split; [intros a d; vm_compute; discriminate|].
+  split; [split; [intros p n H; discriminate|split; [intros p n H; discriminate|left; reflexivity]]|].
+  split; [exact (C07_backed_empty toy_hash)|].
+  split.
+  { intros x y Hx Hy. cbn [ex_ws In] in Hx, Hy.
+    destruct Hx as [<-|[<-|[<-|[<-|[]]]]]; destruct Hy as [<-|[<-|[<-|[<-|[]]]]]; intros Hwx Hwy E; try reflexivity; try discriminate;
+      vm_compute in E; discriminate. }
+  split; [intros x d _ _ H; discriminate|].
+  repeat (apply Forall_cons; [apply wf_rec_api; vm_compute; reflexivity|]). apply Forall_nil.
+Qed.
+
 Print Assumptions C07_explore_complete.
 Print Assumptions C07_interleave_invariant.
 Print Assumptions C07_conc_content_inv.
@@ -222,6 +287,9 @@ Print Assumptions C07_appends_never_splice.
 Print Assumptions C07_conc_index_serializable.
 Print Assumptions C07_conc_writes_serializable.
 Print Assumptions C07_observations_monotone.
+Print Assumptions C07_readers_among_writers.
+Print Assumptions C07_atomic_read_value.
+Print Assumptions C07_backed_reachable.
 Print Assumptions C07_hop_prog_is_insert.
 Print Assumptions C07_pairs_serializable.
 Print Assumptions C07_pairs_all_interleavings.
